@@ -9,6 +9,11 @@ def run(res):
     S3 = {'g1': (('y', 2), ('y', 0), ('y', 3)), 'g2': (('y', 0), ('y', 3), ('y', -1)), 'g3': (('y', 1), ('y', 1))}
     K = dict(G=('g1', 'g2', 'g3'), Script=S3, Dts={0, 1, 2}, MaxTimer=8, WithKill=False, StartCancelsPendingKill=True, FinishDropsKillMark=True)
     cc.check_and_replay(res, 'c08_timing', K, depth_all=5 if th else 4, walks=20000 if th else 3000, walk_len=40)
+    # (B) recorded executions: 7 coroutines with random scripts (waits up to 7, in-body start/kill), random schedules
+    for i in range(4 if th else 2):
+        res.seed += i
+        cc.trace_validate(res, 'c08_recorded_%d' % i, 7, 600 if th else 80, 60)
+        res.seed -= i
     if th:
         # longer waits, dt up to 4, kills in the mix: model checking only (too large to dump)
         S3b = {'g1': (('y', 2), ('y', 5), ('y', 0)), 'g2': (('y', 3), ('y', 0), ('y', 1)), 'g3': (('y', 1), ('y', 2), ('y', 3))}
